@@ -281,6 +281,7 @@ class SG:
             return "(insert %s)" % " ".join(cs + self.returning(tbl)), False
         cs.append("(columns %s)" % " ".join(h(c) for c in use))
         if k < 0.75:
+            rows_acc = []
             for _ in range(r.randrange(1, 4)):
                 row = []
                 for c in use:
@@ -290,7 +291,17 @@ class SG:
                         row.append(self.sval() if r.random() < 0.8 else "(val n:s)")
                     else:
                         row.append(self.ival() if r.random() < 0.8 else "(bin add %s %s)" % (self.ival(), self.ival()))
-                cs.append("(valuespanic %s)" % " ".join(row))
+                rows_acc.append(" ".join(row))
+            # rows one by one (values_panic) and / or in bulk (values_from_panic), in a random split
+            cut = r.randrange(0, len(rows_acc) + 1)
+            for rw in rows_acc[:cut]:
+                cs.append("(valuespanic %s)" % rw)
+            if rows_acc[cut:]:
+                if r.random() < 0.5:
+                    cs.append("(valuesfrompanic %s)" % " ".join("(row %s)" % rw for rw in rows_acc[cut:]))
+                else:
+                    for rw in rows_acc[cut:]:
+                        cs.append("(valuesfrompanic (row %s))" % rw)
         else:
             src = "u" if tbl == "t" else "t"
             sel = []
